@@ -2,6 +2,7 @@ package retriever
 
 import (
 	"context"
+	"encoding/json"
 	"fmt"
 	"log/slog"
 	"os"
@@ -675,7 +676,7 @@ func loadGraphNodes(ctx context.Context, db graph.Database, inputDir string, cod
 
 			pending = append(pending, pendingNode{
 				sourceID: item.ID,
-				node:     graph.NewNode(0, graph.AsProperties(item.Properties), graph.StringsToKinds(item.Kinds)...),
+				node:     graph.NewNode(0, graph.AsProperties(fragmentProperties(item.Properties)), graph.StringsToKinds(item.Kinds)...),
 			})
 			pendingIDs[item.ID] = struct{}{}
 			processed++
@@ -859,6 +860,39 @@ func resolveFragmentEdgeWithResolver(item FragmentEdge, resolve func(string) (gr
 		StartID:    startID,
 		EndID:      endID,
 		Kind:       graph.StringKind(item.Kind),
-		Properties: graph.AsProperties(item.Properties),
+		Properties: graph.AsProperties(fragmentProperties(item.Properties)),
 	}, nil
+}
+
+// fragmentProperties replaces the json.Number values of a decoded fragment record with the integer or floating point
+// value they spell: an integer that fits an int64 stays an integer, everything else is a float64.
+func fragmentProperties(properties map[string]any) map[string]any {
+	for key, value := range properties {
+		properties[key] = fragmentPropertyValue(value)
+	}
+
+	return properties
+}
+
+func fragmentPropertyValue(value any) any {
+	switch typedValue := value.(type) {
+	case json.Number:
+		if integer, err := typedValue.Int64(); err == nil {
+			return integer
+		} else if float, err := typedValue.Float64(); err == nil {
+			return float
+		}
+
+		return typedValue.String()
+
+	case map[string]any:
+		return fragmentProperties(typedValue)
+
+	case []any:
+		for idx, element := range typedValue {
+			typedValue[idx] = fragmentPropertyValue(element)
+		}
+	}
+
+	return value
 }
